@@ -309,7 +309,7 @@ type archiveableDataBlock struct {
 	dataBlock
 	earliestTime     time.Time
 	requestedSamples int
-	complete         chan struct{}
+	complete         chan dataBlock // the core loop hands the filled block to the writer goroutine here
 	active           bool
 }
 
@@ -425,10 +425,10 @@ func (ds *AnySource) archiveNewDataBlock(block *dataBlock) {
 
 	requestFilled := ab.nSamp >= ab.requestedSamples
 	if requestFilled {
-		// Closing the channel releases the goroutine that copies and writes the archive block:
-		// everything it reads, including this flag, has to be written before that.
+		// Sending the filled block releases the goroutine that writes it to file. It gets its own copy,
+		// because the next request re-uses ds.archiveBlock (possibly before the file has been written).
 		ab.active = false
-		close(ab.complete)
+		ab.complete <- ab.dataBlock
 	}
 }
 
@@ -1118,11 +1118,10 @@ func (ds *AnySource) StopTriggerCoupling() error {
 	return ds.broker.StopTriggerCoupling()
 }
 
-func (ds *AnySource) writeNPZData(file *os.File) error {
+func (ds *AnySource) writeNPZData(file *os.File, ab *dataBlock) error {
 	wz := npz.NewWriter(file)
 	defer wz.Close()
 
-	ab := ds.archiveBlock
 	channelNames := ds.ChannelNames()
 	firstFrame := make([]int64, len(ab.segments))
 	for i, stream := range ab.segments {
@@ -1155,14 +1154,15 @@ func (ds *AnySource) ArchiveDataBlock(N int, file *os.File, finalName string) er
 	ds.archiveBlock.earliestTime = time.Now()
 	ds.archiveBlock.requestedSamples = N
 	ds.archiveBlock.segments = nil
-	ds.archiveBlock.complete = make(chan struct{})
+	complete := make(chan dataBlock, 1)
+	ds.archiveBlock.complete = complete
 	ds.archiveBlock.active = true
 
-	// Launch this goroutine, which will execute when the ds.archiveBlock.complete channel is closed
+	// Launch this goroutine, which will execute when the filled block arrives on the complete channel
 	go func() {
 		// When the archiveBlock is filled, write to npz file.
-		<-ds.archiveBlock.complete
-		if err := ds.writeNPZData(file); err != nil {
+		filled := <-complete
+		if err := ds.writeNPZData(file, &filled); err != nil {
 			file.Close()
 		}
 
